@@ -296,6 +296,20 @@ def gen_C14(seed, tier):
             samples.append({"case": cid, "ops": seq, "fail_at": fail_at})
         g.stats["fail:" + fail_kind] += 1
         g.stats["nops:%d" % nops] += 1
+    # a body with mass attached by a fixed joint to an INTERMEDIATE (virtual) body of an emulated multi-DoF joint:
+    # Body::Join clears the virtual flag of that body, and the parent / joint-frame queries of the multi-DoF
+    # body, which walk up past virtual bodies, no longer return what was supplied (known finding D23)
+    for k in range(nmodels(tier, 2, 8)):
+        mb = G.ModelBuilder(g)
+        mb.add(0, g.r.choice(["RevoluteZ", "Revolute", "Prismatic"]), "-")
+        nax = g.r.choice(["Emul3", "Emul2", "Emul4"])
+        nid = mb.add(mb.n_movable - 1, nax, "-")
+        virt = g.r.choice(mb.virtual_ids)
+        mb.lines.append("getparent %d" % nid); mb.lines.append("getframe %d" % nid)
+        mb.lines.append("add %d %s T Fixed %s -" % (virt, G.frs(g.frame()), G.frs(g.body())))
+        mb.lines.append("getparent %d" % nid); mb.lines.append("getframe %d" % nid)
+        out += ["case c14virtpayload_%d" % k, "gravity 0 0 -981/100"] + mb.lines
+        g.stats["sequence:payload-on-virtual-body"] += 1
     return finish(g, out, samples, len(sigs))
 
 
@@ -1574,7 +1588,7 @@ PROPS = {
             "assumptions": COMMON_ASSUMPTIONS},
     "C06": {"gen": props_gen2.with_jcalc_case(gen_C06, "c06jcalc_0"), "extra_props": ["GenLaws", "GenLaws2", "C06Cap"], "rule": RULE_MODELS, "explanation": "monitor: first and second jets of point positions / orientation",
             "assumptions": COMMON_ASSUMPTIONS},
-    "C14": {"gen": gen_C14, "impl_monitor": impl_monitor_C14,
+    "C14": {"gen": gen_C14, "extra_props": ["C14Q"], "impl_monitor": impl_monitor_C14,
             "rule": "random construction sequences of 2-9 calls (AddBody with every joint kind, AppendBody, AddBodyCustomJoint, fixed bodies on any parent, named / unnamed) with one failing call (duplicate name on the movable / fixed / multi-DoF / custom path, or an undefined joint type) injected at a random position; structural dump and all numeric parameters after every call; accessors and a dynamics call at the end; distinct = distinct op-kind sequences",
             "explanation": "monitor (direct, on the implementation's dump): well-formedness clauses after every call, rejected call leaves dump+parameters identical; correspondence: the Lean construction state machine reproduces every dump, returned id, error kind and accessor result exactly",
             "assumptions": ["parent ids passed to AddBody are valid ids (the library does not check them)"]},
@@ -1590,7 +1604,7 @@ PROPS = {
             "rule": "random models with contact sets (1-3 orthonormal normals per point, 1-2 points, movable / fixed bodies) and loop constraints placed on the manifold with exact kinematics (classes: predecessor = base; ball (3 translations); rotational axes with the predecessor frame away from the base origin; partial translations / frames separated along free axes), velocities projected exactly on G qdot = 0, Baumgarte on / off, external forces; methods direct / range-space / null-space x 3 solvers, Kokkevis for contact-only sets",
             "explanation": "certificates evaluated with the specification: H q'' + N = tau + G^T lambda, G q'' = gamma (second jet of phi incl. the Baumgarte term), agreement of the methods",
             "assumptions": COMMON_ASSUMPTIONS + ["constraint Jacobian smallest singular value >= 0.05 (checked exactly before a case is emitted)"]},
-    "C09": {"gen": gen_C09,
+    "C09": {"gen": gen_C09, "extra_props": ["C09F"],
             "rule": "same constraint-set grammar as C08; CalcConstraintsJacobian / PositionError / VelocityError, gamma from CalcConstrainedSystemVariables (flag set and cleared)",
             "explanation": "monitor: G = d(phi')/d(qdot), velocity error = phi', gamma = -phi''(qddot = 0) - Baumgarte, from second-order jets of the constraint functions phi on the pose specification",
             "assumptions": COMMON_ASSUMPTIONS},
